@@ -39,6 +39,8 @@ enum Slot {
 struct TNode {
     kind: Kind,
     entries: Vec<(String, Span, Slot)>,
+    /// per entry: (path occurrence, segment) whose spelling a one-Key-per-entry implementation would keep
+    stored: Vec<(usize, usize)>,
     late: bool,
 }
 
@@ -51,63 +53,80 @@ struct Defs {
     next_section: usize,
     u1_permissive: bool,
     u1_hit: bool,
+    /// (path occurrence, segment, table, entry): which entry each key segment resolved to
+    occ: Vec<(usize, usize, usize, usize)>,
 }
 
 impl Defs {
     fn new(u1_permissive: bool) -> Self {
         Defs {
-            arena: vec![TNode { kind: Kind::Root, entries: Vec::new(), late: false }],
+            arena: vec![TNode { kind: Kind::Root, entries: Vec::new(), stored: Vec::new(), late: false }],
             current: 0,
             section: 0,
             next_section: 1,
             u1_permissive,
             u1_hit: false,
+            occ: Vec::new(),
         }
     }
     fn new_table(&mut self, kind: Kind) -> usize {
-        self.arena.push(TNode { kind, entries: Vec::new(), late: false });
+        self.arena.push(TNode { kind, entries: Vec::new(), stored: Vec::new(), late: false });
         self.arena.len() - 1
+    }
+    fn push_entry(&mut self, t: usize, k: &str, sp: Span, slot: Slot, pidx: usize, seg: usize) {
+        self.arena[t].entries.push((k.to_string(), sp, slot));
+        self.arena[t].stored.push((pidx, seg));
+        let e = self.arena[t].entries.len() - 1;
+        self.occ.push((pidx, seg, t, e));
+    }
+    /// fill `Layout::paths[..].stored` for every path occurrence this engine resolved
+    fn resolve(&self, layout: &mut Layout) {
+        for (pidx, seg, t, e) in &self.occ {
+            layout.paths[*pidx].stored[*seg] = self.arena[*t].stored[*e];
+        }
     }
     fn find(&self, t: usize, key: &str) -> Option<usize> {
         self.arena[t].entries.iter().position(|(k, _, _)| k == key)
     }
 
     /// walk the proper prefix of a header path
-    fn header_prefix(&mut self, path: &[(String, Span)]) -> R<usize> {
+    fn header_prefix(&mut self, path: &[(String, Span)], pidx: usize) -> R<usize> {
         let mut cur = 0usize;
-        for (k, sp) in &path[..path.len() - 1] {
+        for (seg, (k, sp)) in path[..path.len() - 1].iter().enumerate() {
             match self.find(cur, k) {
                 None => {
                     let t = self.new_table(Kind::ImplicitByHeader);
-                    self.arena[cur].entries.push((k.clone(), *sp, Slot::Table(t)));
+                    self.push_entry(cur, k, *sp, Slot::Table(t), pidx, seg);
                     cur = t;
                 }
-                Some(i) => match &self.arena[cur].entries[i].2 {
+                Some(i) => { self.occ.push((pidx, seg, cur, i)); match &self.arena[cur].entries[i].2 {
                     Slot::Table(t) => cur = *t,
                     Slot::Aot(v) => cur = *v.last().expect("aot never empty"),
                     Slot::Value(_) => return sem(sp.start, "header path passes through a value (scalar, static array or inline table)"),
-                },
+                }},
             }
         }
         Ok(cur)
     }
 
-    fn std_header(&mut self, path: &[(String, Span)]) -> R<()> {
-        let parent = self.header_prefix(path)?;
-        let (k, sp) = &path[path.len() - 1];
+    fn std_header(&mut self, path: &[(String, Span)], pidx: usize) -> R<()> {
+        let parent = self.header_prefix(path, pidx)?;
+        let last = path.len() - 1;
+        let (k, sp) = &path[last];
         let target = match self.find(parent, k) {
             None => {
                 let t = self.new_table(Kind::ExplicitHeader);
-                self.arena[parent].entries.push((k.clone(), *sp, Slot::Table(t)));
+                self.push_entry(parent, k, *sp, Slot::Table(t), pidx, last);
                 t
             }
-            Some(i) => match &self.arena[parent].entries[i].2 {
+            Some(i) => { self.occ.push((pidx, last, parent, i)); match &self.arena[parent].entries[i].2 {
                 Slot::Table(t) => {
                     let t = *t;
                     match self.arena[t].kind {
                         Kind::ImplicitByHeader => {
                             self.arena[t].kind = Kind::ExplicitHeader;
                             self.arena[t].late = true;
+                            self.arena[parent].stored[i] = (pidx, last);
                             t
                         }
                         Kind::ExplicitHeader => return sem(sp.start, "table header repeated"),
@@ -117,7 +136,7 @@ impl Defs {
                 }
                 Slot::Aot(_) => return sem(sp.start, "[table] header collides with an array of tables"),
                 Slot::Value(_) => return sem(sp.start, "[table] header collides with a value"),
-            },
+            }},
         };
         self.current = target;
         self.section = self.next_section;
@@ -125,19 +144,20 @@ impl Defs {
         Ok(())
     }
 
-    fn array_header(&mut self, path: &[(String, Span)]) -> R<()> {
-        let parent = self.header_prefix(path)?;
-        let (k, sp) = &path[path.len() - 1];
+    fn array_header(&mut self, path: &[(String, Span)], pidx: usize) -> R<()> {
+        let parent = self.header_prefix(path, pidx)?;
+        let last = path.len() - 1;
+        let (k, sp) = &path[last];
         let elem = self.new_table(Kind::AotElement);
         match self.find(parent, k) {
             None => {
-                self.arena[parent].entries.push((k.clone(), *sp, Slot::Aot(vec![elem])));
+                self.push_entry(parent, k, *sp, Slot::Aot(vec![elem]), pidx, last);
             }
-            Some(i) => match &mut self.arena[parent].entries[i].2 {
+            Some(i) => { self.occ.push((pidx, last, parent, i)); match &mut self.arena[parent].entries[i].2 {
                 Slot::Aot(v) => v.push(elem),
                 Slot::Table(_) => return sem(sp.start, "[[array]] header collides with a table"),
                 Slot::Value(_) => return sem(sp.start, "[[array]] header collides with a value (static array, inline table or scalar)"),
-            },
+            }},
         }
         self.current = elem;
         self.section = self.next_section;
@@ -146,16 +166,16 @@ impl Defs {
     }
 
     /// `k1.k2...kn = v` inside table `base` of section `section`
-    fn keyval(&mut self, base: usize, section: usize, path: &[(String, Span)], value: Node) -> R<()> {
+    fn keyval(&mut self, base: usize, section: usize, path: &[(String, Span)], pidx: usize, value: Node) -> R<()> {
         let mut cur = base;
-        for (k, sp) in &path[..path.len() - 1] {
+        for (seg, (k, sp)) in path[..path.len() - 1].iter().enumerate() {
             match self.find(cur, k) {
                 None => {
                     let t = self.new_table(Kind::ByDottedKey(section));
-                    self.arena[cur].entries.push((k.clone(), *sp, Slot::Table(t)));
+                    self.push_entry(cur, k, *sp, Slot::Table(t), pidx, seg);
                     cur = t;
                 }
-                Some(i) => match &self.arena[cur].entries[i].2 {
+                Some(i) => { self.occ.push((pidx, seg, cur, i)); match &self.arena[cur].entries[i].2 {
                     Slot::Table(t) => {
                         let t = *t;
                         match self.arena[t].kind {
@@ -175,14 +195,15 @@ impl Defs {
                     }
                     Slot::Aot(_) => return sem(sp.start, "dotted key passes through an array of tables"),
                     Slot::Value(_) => return sem(sp.start, "dotted key passes through a value (scalar, static array or inline table)"),
-                },
+                }},
             }
         }
-        let (k, sp) = &path[path.len() - 1];
+        let last = path.len() - 1;
+        let (k, sp) = &path[last];
         if self.find(cur, k).is_some() {
             return sem(sp.start, "key defined twice");
         }
-        self.arena[cur].entries.push((k.clone(), *sp, Slot::Value(value)));
+        self.push_entry(cur, k, *sp, Slot::Value(value), pidx, last);
         Ok(())
     }
 
@@ -358,14 +379,23 @@ impl<'a> P<'a> {
         }
     }
     /// key = simple-key *( ws "." ws simple-key ); trailing ws is consumed
-    fn key(&mut self) -> R<Vec<(String, Span)>> {
-        let mut path = vec![self.simple_key()?];
+    fn key(&mut self) -> R<(Vec<(String, Span)>, usize)> {
+        let mut segs: Vec<Seg> = Vec::new();
+        let pre_start = self.i;
+        self.ws();
+        let mut pre = Span { start: pre_start, end: self.i };
+        let mut path = Vec::new();
         loop {
+            let (k, ksp) = self.simple_key()?;
+            let post_start = self.i;
             self.ws();
+            segs.push(Seg { pre, key: ksp, post: Span { start: post_start, end: self.i } });
+            path.push((k, ksp));
             if self.peek() == Some(b'.') {
                 self.i += 1;
+                let ps = self.i;
                 self.ws();
-                path.push(self.simple_key()?);
+                pre = Span { start: ps, end: self.i };
             } else {
                 break;
             }
@@ -373,7 +403,9 @@ impl<'a> P<'a> {
         if path.len() >= LIMIT_ZONE {
             self.limits.depth = true;
         }
-        Ok(path)
+        let n = segs.len();
+        self.layout.paths.push(PathOcc { segs, stored: vec![(usize::MAX, 0); n] });
+        Ok((path, self.layout.paths.len() - 1))
     }
 
     // ---- strings
@@ -656,29 +688,34 @@ impl<'a> P<'a> {
         debug_assert_eq!(self.peek(), Some(b'{'));
         self.i += 1;
         let mut defs = Defs::new(false);
+        self.layout.inline_scopes += 1;
+        let scope = 1_000_000 + self.layout.inline_scopes;
+        let save = self.i;
         self.ws();
         if self.peek() == Some(b'}') {
             self.i += 1;
             return Ok(Vec::new());
         }
+        self.i = save;
         loop {
-            // keyval = key keyval-sep val
-            let path = self.key()?;
+            // keyval = key keyval-sep val   (key() takes the whitespace in front of the key as its decor)
+            let (path, pidx) = self.key()?;
             if self.peek() != Some(b'=') {
                 return rej(self.i, "expected = in inline table");
             }
             self.i += 1;
             self.ws();
             let v = self.value(depth + 1)?;
-            defs.keyval(0, 0, &path, v)?;
+            self.layout.keyvals.push((scope, path.iter().map(|(k, _)| k.clone()).collect()));
+            defs.keyval(0, 0, &path, pidx, v)?;
             self.ws();
             match self.peek() {
                 Some(b',') => {
                     self.i += 1;
-                    self.ws();
                 }
                 Some(b'}') => {
                     self.i += 1;
+                    defs.resolve(&mut self.layout);
                     return Ok(defs.build(0));
                 }
                 None => return rej(self.i, "unterminated inline table"),
@@ -1047,28 +1084,27 @@ fn document(p: &mut P<'_>, defs: &mut Defs) -> R<()> {
             Some(b'[') => {
                 let is_array = p.starts_with(b"[[");
                 p.i += if is_array { 2 } else { 1 };
-                p.ws();
-                let path = p.key()?;
+                let (path, pidx) = p.key()?;
                 if is_array {
                     if !p.starts_with(b"]]") {
                         return rej(p.i, "expected ]] closing array-of-tables header");
                     }
                     p.i += 2;
-                    defs.array_header(&path)?;
+                    defs.array_header(&path, pidx)?;
                     p.layout.statements.push('a');
                 } else {
                     if p.peek() != Some(b']') {
                         return rej(p.i, "expected ] closing table header");
                     }
                     p.i += 1;
-                    defs.std_header(&path)?;
+                    defs.std_header(&path, pidx)?;
                     p.layout.statements.push('h');
                 }
                 last = LastLine::Header;
                 p.ws();
             }
             Some(_) => {
-                let path = p.key()?;
+                let (path, pidx) = p.key()?;
                 if p.peek() != Some(b'=') {
                     return rej(p.i, "expected = after key");
                 }
@@ -1076,7 +1112,8 @@ fn document(p: &mut P<'_>, defs: &mut Defs) -> R<()> {
                 p.ws();
                 let v = p.value(0)?;
                 let (cur, sec) = (defs.current, defs.section);
-                defs.keyval(cur, sec, &path, v)?;
+                p.layout.keyvals.push((sec, path.iter().map(|(k, _)| k.clone()).collect()));
+                defs.keyval(cur, sec, &path, pidx, v)?;
                 p.layout.statements.push('k');
                 last = LastLine::Keyval;
                 p.ws();
@@ -1094,6 +1131,7 @@ fn document(p: &mut P<'_>, defs: &mut Defs) -> R<()> {
         ended_nl = true;
     }
     let _ = ended_nl;
+    defs.resolve(&mut p.layout);
     p.layout.last_line = Some(last);
     p.layout.ends_with_newline = p.s.ends_with(b"\n");
     Ok(())
@@ -1165,7 +1203,7 @@ pub fn parse_value_str(s: &str) -> Result<(Node, Limits), Reject> {
 pub fn parse_key_str(s: &str) -> Result<Vec<String>, Reject> {
     let mut p = P { s: s.as_bytes(), i: 0, limits: Limits::default(), layout: Layout::default(), depth_cap_hit: false };
     p.ws();
-    let k = p.key()?;
+    let (k, _) = p.key()?;
     if !p.eof() {
         return rej(p.i, "trailing characters after key");
     }
